@@ -13,6 +13,7 @@ package NoKV
 
 import (
 	"os"
+	"time"
 
 	sym "github.com/feichai0017/NoKV/internal/verifsym"
 	"github.com/feichai0017/NoKV/kv"
@@ -121,6 +122,7 @@ var VerifApplied = map[string]int{}
 var (
 	VerifBatchOf   = map[string]int{}
 	VerifVersionOf = map[string]uint64{}
+	VerifValueOf   = map[string][]byte{}
 	verifBatchSeq  int
 )
 
@@ -130,6 +132,7 @@ func VerifOpenPipelineDB(queueCap int, withOracle bool) *DB {
 		VerifApplied = map[string]int{}
 		VerifBatchOf = map[string]int{}
 		VerifVersionOf = map[string]uint64{}
+		VerifValueOf = map[string][]byte{}
 		verifBatchSeq = 0
 		opt := NewDefaultOptions()
 		opt.DetectConflicts = true
@@ -160,6 +163,7 @@ func VerifOpenPipelineDB(queueCap int, withOracle bool) *DB {
 	opt.EnableWALWatchdog = false
 	opt.ValueLogGCInterval = 0
 	opt.DetectConflicts = true
+	opt.WriteBatchWait = VerifPipelineBatchWait
 	return Open(opt)
 }
 
@@ -174,6 +178,26 @@ func VerifClosePipeline(db *DB) {
 	_ = os.RemoveAll(dir)
 }
 
+// VerifStopPipeline closes the database (engine: the write path) and keeps the
+// directory; VerifRemovePipelineDir removes it afterwards.
+func VerifStopPipeline(db *DB) {
+	if sym.Symbolic() {
+		db.stopCommitWorkers()
+		return
+	}
+	_ = db.Close()
+}
+
+func VerifRemovePipelineDir(db *DB) {
+	if !sym.Symbolic() {
+		_ = os.RemoveAll(db.opt.WorkDir)
+	}
+}
+
+// VerifPipelineBatchWait: natively, the commit worker's coalescing window
+// (Options.WriteBatchWait) for pipeline databases opened afterwards.
+var VerifPipelineBatchWait time.Duration
+
 func verifVlogWrite(vlog *valueLog, reqs []*request) error {
 	for _, r := range reqs {
 		r.Ptrs = make([]kv.ValuePtr, len(r.Entries))
@@ -182,12 +206,18 @@ func verifVlogWrite(vlog *valueLog, reqs []*request) error {
 }
 
 func verifLSMSetBatch(l *lsm.LSM, entries []*kv.Entry) error {
+	for _, e := range entries { // as lsm.SetBatch: a nil entry or an empty key rejects the batch
+		if e == nil || len(e.Key) == 0 {
+			return utils.ErrEmptyKey
+		}
+	}
 	verifBatchSeq++
 	for _, e := range entries {
 		cf, key, ts := kv.SplitInternalKey(e.Key)
 		VerifApplied[string(key)]++
 		VerifBatchOf[string(key)] = verifBatchSeq
 		VerifVersionOf[string(key)] = ts
+		VerifValueOf[string(key)] = kv.SafeCopy(nil, e.Value)
 		verifMVCC.recs = append(verifMVCC.recs, &verifRec{cf: cf, key: kv.SafeCopy(nil, key), version: ts, value: kv.SafeCopy(nil, e.Value), meta: e.Meta, expires: e.ExpiresAt})
 	}
 	return nil
